@@ -35,6 +35,10 @@ def obligations(tier):
         obs.append(Ob(f"C03.integrated.note_section[{ix}]", "CH", "harness.h_integrated", "note_section", 1200, {"VF_IDX": ix, "VF_ORDER": 1},
                       funcs=(IN + "InstrumentTrack.from_chart_lines", IN + "NoteEvent.from_parsed_data"),
                       bounds="sustain/end tick/end time/last-note-end through the real parser, sustains spanning the tempo change"))
+    obs.append(Ob("C03.long_history", "CH", "harness.h_hist", "long_history", 1200,
+                  funcs=("chartparse.chart.Chart.from_file (whole pipeline, native execution)",),
+                  bounds="30/120/400 parses in one fresh interpreter alternating two of four texts that share every tick but differ in tempo map / resolution, "
+                         "each chart dropped at once (freed objects, recycled addresses): every parse identical to the first parse of its text"))
     return obs
 
 
